@@ -643,6 +643,18 @@ Proof.
     rewrite RS by exact Hpl. rewrite Nat.eqb_refl. cbn [b2z]. reflexivity.
 Qed.
 
+Lemma early_inv : forall i c s s' ws, Inv s -> do_early i c s = (s', ws) ->
+  Inv s' /\ (forall w, In w ws -> wok w).
+Proof.
+  intros i c s s' ws HI H. unfold do_early in H.
+  destruct (do_select i c s) as [s1 ws1] eqn:E1. destruct (select_inv _ _ _ _ _ HI E1) as [H1 Hw1].
+  destruct (Nat.eqb (length (rpcs s1)) (length (rpcs s))); [inversion H; subst; split; assumption|].
+  destruct (do_commit (Z.of_nat (length (rpcs s))) s1) as [s2 ws2] eqn:E2.
+  destruct (commit_inv _ _ _ _ H1 E2) as [H2 Hw2]. inversion H; subst; clear H.
+  split; [exact H2|]. intros w Hin. apply in_app_or in Hin.
+  destruct Hin as [Hin | Hin]; [exact (Hw1 _ Hin) | exact (Hw2 _ Hin)].
+Qed.
+
 Lemma step_inv : forall s op s' ws, Inv s -> step s op = (s', ws) ->
   Inv s' /\ (forall w, In w ws -> wok w).
 Proof.
@@ -669,6 +681,11 @@ Proof.
   { destruct a as [|x a]; try (inversion H; subst; split; [exact HI | exact Hnop]).
     destruct (do_error s) as [s1 ws1] eqn:E. inversion H; subst; clear H.
     destruct (error_inv _ _ _ HI E) as [H1 Hw]. split; [exact H1|].
+    intros w Hin. apply in_app_or in Hin. destruct Hin as [Hin | [Ew | []]]; [exact (Hw _ Hin) | subst; exact (Hsnap _ H1)]. }
+  destruct (tag =? 5).
+  { destruct a as [|i [|c [|x a]]]; try (inversion H; subst; split; [exact HI | exact Hnop]).
+    destruct (do_early i c s) as [s1 ws1] eqn:E. inversion H; subst; clear H.
+    destruct (early_inv _ _ _ _ _ HI E) as [H1 Hw]. split; [exact H1|].
     intros w Hin. apply in_app_or in Hin. destruct Hin as [Hin | [Ew | []]]; [exact (Hw _ Hin) | subst; exact (Hsnap _ H1)]. }
   inversion H; subst. split; [exact HI | exact Hnop].
 Qed.
